@@ -6,7 +6,7 @@ import itertools
 
 from sa.absio import LayoutMismatch
 from sa.interp import EnumMember, SObj
-from sa.load import AnalysisError, Repo, loc
+from sa.load import AnalysisError, Repo, loc, where_of
 from sa.report import Run
 from spec import sqwfmt
 
@@ -176,7 +176,7 @@ def run(tier: str) -> Run:
         'R3': ['pixel block holds 9 rows x N pixels', 'histogram block holds zeros of the declared shape', 'data_block decodes within its extent',
                'pix_data_block decodes within its extent', 'dnd_data_block decodes within its extent', 'package reader decodes every block'],
     }
-    where = {'R0': loc(cfi), 'R1': loc(repo.func(BUILD, '_write_file_header')), 'R2': loc(bfi), 'R3': loc(cfi)}
+    where = {'R0': loc(cfi), 'R1': where_of(repo, BUILD, '_write_file_header', 'SqwBuilder.create'), 'R2': loc(bfi), 'R3': loc(cfi)}
     for rule, rr in (('R0', r0), ('R1', r1), ('R2', r2), ('R3', r3)):
         for inst in instances[rule]:
             f = fails[rule].get(inst)
